@@ -245,7 +245,19 @@ def axiom_allowed(name):
     return short in ALLOWED_AXIOM_SHORT
 
 
-def check_proofs(pid, res):
+def run_coqchk(pid, info, problems):
+    """Thorough tier: re-check Props/Cxx.vo and everything below it with the independent checker."""
+    t0 = time.time()
+    rc, out = sh('timeout 3000 coqchk -silent -o -Q . %s %s.Props.%s 2>&1' % (LOGICAL, LOGICAL, pid), cwd=COQ, timeout=3100)
+    info['coqchk_rc'] = rc
+    info['coqchk_wall_s'] = round(time.time() - t0, 1)
+    tail = out.strip().splitlines()[-60:]
+    info['coqchk_tail'] = tail
+    if rc != 0:
+        problems.append('coqchk failed on Props/%s.vo: %s' % (pid, ' | '.join(tail[-5:])))
+
+
+def check_proofs(pid, res, tier='quick'):
     """Step (a).  Fills res['proof'] and returns list of problems (strings)."""
     problems = []
     info = {'theorems': [], 'assumptions': {}, 'obligations': 0, 'discharged': 0}
@@ -312,8 +324,50 @@ def check_proofs(pid, res):
                 bad = [a for a in ax if not axiom_allowed(a)]
                 if bad:
                     problems.append('theorem %s depends on non-allow-listed axioms: %s' % (name, bad))
+    if tier == 'thorough' and not problems:
+        run_coqchk(pid, info, problems)
     info['wall_s'] = round(time.time() - t0, 2)
     return problems
+
+
+# --------------------------------------------------------------------------
+# Source fingerprints (never an alarm by themselves: they only escalate the case budget)
+# --------------------------------------------------------------------------
+def anchored_files(pid):
+    try:
+        with open(os.path.join(ROOT, 'properties.jsonl')) as f:
+            for line in f:
+                d = json.loads(line)
+                if d.get('id') == pid:
+                    return list(d.get('anchors', {}).get('files', []))
+    except Exception:
+        pass
+    return []
+
+
+def fingerprint(path):
+    import ast
+    try:
+        with open(path) as f:
+            tree = ast.parse(f.read())
+        return hashlib.sha1(ast.dump(tree, include_attributes=False).encode()).hexdigest()[:16]
+    except Exception as e:
+        return 'unparsable:%s' % type(e).__name__
+
+
+def fingerprints_now(pid):
+    return {f: fingerprint(os.path.join(REPO, f)) for f in anchored_files(pid)}
+
+
+def fingerprints_changed(pid):
+    try:
+        with open(os.path.join(ROOT, 'harness/vt/fingerprints.json')) as f:
+            base = json.load(f)
+    except Exception:
+        return [], {}
+    now = fingerprints_now(pid)
+    changed = [f for f, h in now.items() if f in base and base[f] != h]
+    return changed, now
 
 
 # --------------------------------------------------------------------------
@@ -600,7 +654,7 @@ def main(argv=None):
         return 1
 
     # ---- (a) proofs ----
-    proof_problems = [] if args.no_proof else check_proofs(pid, res)
+    proof_problems = [] if args.no_proof else check_proofs(pid, res, tier)
     for p in proof_problems:
         log('PROOF-PROBLEM: ' + p)
 
@@ -614,6 +668,14 @@ def main(argv=None):
         cases = list(mod.corpus()) if hasattr(mod, 'corpus') else []
         n = args.cases
         cases += list(mod.cases(rng, tier, n) if n is not None else mod.cases(rng, tier))
+        changed, now = fingerprints_changed(pid)
+        res['fingerprints'] = now
+        res['fingerprints_changed'] = changed
+        if changed and n is None and tier == 'quick':
+            # an anchored source file differs from the recorded baseline: hit it harder (3x the cases, fresh seeds)
+            log('note: anchored source changed since baseline (%s): escalating case budget' % ', '.join(changed))
+            for extra in (1, 2):
+                cases += list(mod.cases(random.Random(args.seed + 7919 * extra), tier))
     divergences, failures = [], []
     try:
         divergences, failures = run_cases(pid, mod, cases, res)
@@ -739,6 +801,9 @@ def write_evidence(pid, tier, seed, mod, res, violations, wall, cases, known=(),
         'impl_wall_s': res.get('impl_wall_s'),
         'model_wall_s': res.get('model_wall_s'),
         'exhaustive': bool(getattr(mod, 'EXHAUSTIVE', {}).get(tier, False)) if mod else False,
+        'source_fingerprints': res.get('fingerprints', {}),
+        'source_fingerprints_changed': res.get('fingerprints_changed', []),
+        'coqchk': {k: proof.get(k) for k in ('coqchk_rc', 'coqchk_wall_s', 'coqchk_tail') if k in proof},
     }
     if mod is not None and hasattr(mod, 'extra_evidence'):
         try:
